@@ -435,6 +435,14 @@ def store_case(ctx, case, regs, pending):
             insns = tuple(decoder.get_instructions(b))
             env["nonterm"] = [x.size for x in _nonterminator_instructions(b, insns)]
             env["partial"] = bool(_is_partial_disassembly(b, insns))
+            # the premise of store_offset_is_the_specifications, on the real helper: every instruction when all
+            # out-edges are fallthroughs, all but the last otherwise
+            allfall = all(e.label is not None and e.label.type == gtirb.Edge.Type.Fallthrough for e in b.outgoing_edges)
+            want_nt = [x.size for x in insns] if allfall else [x.size for x in insns][:-1]
+            ctx.count("premise:nonterminator-sizes")
+            if env["nonterm"] != want_nt:
+                ctx.mismatch("_nonterminator_instructions keeps the sizes %s of block %d, its definition gives %s (premise of store_offset_is_the_specifications)"
+                             % (env["nonterm"], i, want_nt), {"store": True, "case": case, "regs": regs})
         out = {}
         try:
             mods = store.modifications_for_block(B.m, b, func)
